@@ -527,7 +527,7 @@ impl<'a, 'b> G<'a, 'b> {
             4 => {
                 let t = self.c.choose(&[
                     "NS.C", "NS.a.B", "o.Comp", "this.C", "this.a.b", "NS.KeepAlive", "NS.Fragment",
-                    "NS.el", "o.model", "NS.a.myEl",
+                    "NS.el", "o.model", "NS.a.myEl", "NS.k-1", "o.x-y.C", "NS.a.b-c-",
                 ]);
                 if t.starts_with("this") {
                     self.f.unusual("this-member-tag");
